@@ -268,6 +268,8 @@ theorem simpleExec_le (m : ExprMap) (h : ExprOK m) (s : St) (st : Stmt) :
   case break_ => exact Res.le_refl _
   case continue_ => exact Res.le_refl _
   case global => exact Res.le_refl _
+  case import_ => exact Res.le_refl _
+  case importFrom => exact Res.le_refl _
   all_goals (left; rfl)
 
 def mapFT (m : ExprMap) : FTab → FTab
@@ -317,7 +319,7 @@ theorem callFn_le (m : ExprMap) (h : ExprOK m) (ft : FTab) (n : Nat) (ih : ∀ k
           split
           · right; rfl
           · rcases (ih k (Nat.lt_succ_self k)).2
-              { globals := s.globals, locals := some (ps.zip vs), declGlobal := declaredGlobals b, out := s.out } b with hb | hb
+              { globals := s.globals, locals := some (ps.zip vs), declGlobal := declaredGlobals b, out := s.out, imports := s.imports } b with hb | hb
             · left; simp only [hb, asCall]
             · right; simp only [hb]
 
